@@ -11,6 +11,8 @@ The real InitialOperator.linform is executed on the real boundary-refined domain
     a == 0 case distinction and the sign/arguments of the two E1 terms (z3 forks on a == 0, and on np.isclose if a
     tolerance test is used).
  U  linearity: linform(alpha*u + beta*v) = alpha*linform(u) + beta*linform(v) for uninterpreted u, v.
+ V  with u0 = 1 and the kernel replaced by 1, every cell contributes area(cell) x |segment| (all segments of level <= 2 / 4 of
+    the three domains; ground rational facts)
  R  the rules the operator actually holds (duff_3d_id, duff_3d_touch) integrate every monomial of total degree <= 2 on
     the unit cube - in particular the non-symmetric ones x, y, x*z, y*z - within 1e-12 (ground rational facts).
 The 1e-5 agreement with closed-form potentials, space additivity and the pointwise Gauss evaluation are not decided."""
@@ -239,6 +241,9 @@ def replay(rp):
     try:
         if rp['kind'] in ('geometry', 'rule'):
             return True
+        if rp['kind'] == 'measure':
+            IP.np, IP.exp1, IP.math = saved
+            return any(abs(v - w) > Fraction(1, 10**9) * w for (_, _, _, v, w) in measure_rows(rp['curve'], rp['levels']))
         curve = rp['curve']
         gamma = slsym.curve_pieces(curve)
         cells = segment_cells(gamma, rp['seg'][0])
@@ -310,6 +315,65 @@ def rule_worker(quad_int):
     return res
 
 
+# -- V measure ----------------------------------------------------------------------------------------------
+def measure_rows(curve, levels):
+    """Real linform in floats with u0 = 1 and the exponential integral replaced by the constant 4*pi (so that the
+    time-integrated kernel is identically 1): every cell's contribution must then be area(cell) * |segment|.
+    Returns [(c, d, cell box, value, expected)] as exact rationals of the doubles."""
+    import math
+    IP = importlib.import_module('src.initial_potential')
+    IM = importlib.import_module('src.initial_mesh')
+    saved = (IP.np, IP.exp1, IP.math)
+    IP.np, IP.math = np, math
+    IP.exp1 = lambda x: np.asarray(x, dtype=float) * 0 + 4 * np.pi
+    rows = []
+    try:
+        gamma = slsym.curve_pieces(curve)
+        op = IP.InitialOperator(slsym.FakeMesh(gamma), lambda xz: np.asarray(xz[0], dtype=float) * 0 + 1.0,
+                                initial_mesh=getattr(IM, DOMAINS[curve]), quad_int=3, quad_eval=3)
+        for level in levels:
+            for (c, d, piece) in segment_cells(gamma, level):
+                _, ips = op.linform(slsym.Elem(0.0, 1.0, c, d, piece))
+                for e, val in ips:
+                    x0, y0, x1, y1 = (Fraction(float(v)) for v in (e.vertices[0].x, e.vertices[0].y, e.vertices[2].x,
+                                                                   e.vertices[2].y))
+                    want = abs((x1 - x0) * (y1 - y0)) * (Fraction(float(d)) - Fraction(float(c)))
+                    rows.append((float(c), float(d), tuple(float(v) for v in (x0, y0, x1, y1)), Fraction(float(val)), want))
+    finally:
+        IP.np, IP.exp1, IP.math = saved
+    return rows
+
+
+def measure_worker(case):
+    curve, levels = case
+    eng = Engine(timeout_ms=30000)
+    res = dict(stats=None, violations=[], inconclusive=[], samples=[], functions=[
+        'src/initial_potential.py:InitialOperator.linform', 'src/initial_mesh.py:Element.diam',
+        'src/initial_mesh.py:InitialMesh.refine_msh_bdr'], evaluations=0, nontrivial=0)
+    try:
+        rows = measure_rows(curve, levels)
+    except Exception as e:
+        rp = dict(kind='measure', curve=curve, levels=list(levels))
+        res['violations'].append(dict(signature='measure:%s:exception' % curve, what='linform raises %r with u0 = 1 and a '
+                                      'constant kernel' % (e, ), replay=rp, reproduced=True))
+        rows = []
+    tol = Fraction(1, 10**9)
+    for (c, d, box, val, want) in rows:
+        res['evaluations'] += 1
+        res['nontrivial'] += 1
+        ok, _ = eng.prove(z3bool(SR.const(abs(val - want)) <= SR.const(tol * want)), 'measure')
+        if not ok:
+            rp = dict(kind='measure', curve=curve, levels=list(levels))
+            res['violations'].append(dict(signature='measure:%s' % curve, what='with u0 = 1 and the kernel replaced by 1 the '
+                                          'contribution of the cell %r to the load of the segment [%r, %r] of %s is %.12g, '
+                                          'not area x length = %.12g (a volume / scale factor is wrong)' %
+                                          (box, c, d, curve, float(val), float(want)), replay=rp, reproduced=True))
+            break
+    res['samples'].append(dict(curve=curve, levels=list(levels), cell_contributions=len(rows)))
+    res['stats'] = eng.stats
+    return res
+
+
 def run(out):
     quick = out.tier == 'quick'
     g = [(c, l) for c in DOMAINS for l in ((0, 1, 2) if quick else (0, 1, 2, 3, 4))]
@@ -322,6 +386,9 @@ def run(out):
             k.append(('linear', curve, seg, 1))
     for c, r in zip(k, report.pmap('checks.c08', 'kernel_worker', k)):
         report.merge_worker(out, r, part='%s %s' % ('K time kernel' if c[0] == 'kernel' else 'U linearity', c[1]))
+    mm = [(c, (0, 1, 2) if quick else (0, 1, 2, 3, 4)) for c in DOMAINS]
+    for c, r in zip(mm, report.pmap('checks.c08', 'measure_worker', mm)):
+        report.merge_worker(out, r, part='V measure %s' % c[0])
     rr = [3, 4] if quick else [3, 4, 5, 6]
     for c, r in zip(rr, report.pmap('checks.c08', 'rule_worker', rr)):
         report.merge_worker(out, r, part='R rules held by the operator')
@@ -330,7 +397,7 @@ def run(out):
                       rule_orders=rr)
     out.outside = ['the 1e-5 agreement with closed-form potentials', 'additivity under space splits (two different domain '
                    'meshes)', 'pointwise Gauss evaluation (InitialOperator.evaluate)', 'quad_int = 12 for the symbolic part']
-    out.assumptions = ['E1 uninterpreted', 'np.isclose modelled by its documented formula if reached',
+    out.assumptions = ['E1 uninterpreted (V: replaced by the constant 4*pi, which makes the time-integrated kernel 1)', 'np.isclose modelled by its documented formula if reached',
                        'math.isclose modelled (|a-b| <= max(rel*max(|a|,|b|), abs))']
     out.coverage['exhaustive'] = not out.inconclusive
     out.coverage['rule'] = 'G: every dyadic segment of the stated levels; K/U: every ordering / case of the symbolic times'
